@@ -68,6 +68,8 @@ def report(prop, scripts_by_tid, traces, rej_a, drift, describe):
     by_tid = {t["tid"]: t for t in traces}
     rej = []
     for tid, v in sorted(rej_a.items()):
+        if v["clause"].startswith("A:oracle-incomplete"):
+            raise MachineryError("the harness did not supply every reference value the specification needs (trace %s)" % tid)
         rej.append({"key": v["clause"], "tid": tid, "verdict": v, "trace": by_tid[tid]})
     viol, seen = classify(prop, rej)
     out = []
